@@ -1,0 +1,96 @@
+//go:build verif
+
+// Package verifhook provides crash-point markers for the external verification harness.
+//
+// This file only exists in builds with the `verif` tag. Crash(site) is called between every two
+// successive durable writes of the node database write paths. While armed, every call increments
+// a process-wide hit counter and
+//
+//   - when the environment variable VERIF_CRASH_LOG names a file, appends "<n> <site>\n" to it;
+//   - when the environment variable VERIF_CRASH_AT=<n> equals the hit counter, terminates the
+//     process immediately with exit code 77 (os.Exit: no deferred functions, no Close), which
+//     models an abrupt process death with the operating system still running.
+//
+// The hook is armed by default; a harness that only wants to count the hits of one operation calls
+// Disarm() first and Reset() + Arm() right before the operation.
+package verifhook
+
+import (
+	"fmt"
+	"os"
+	"strconv"
+	"sync"
+)
+
+// ExitCode is the exit code of a process killed at a crash point.
+const ExitCode = 77
+
+var (
+	mu      sync.Mutex
+	armed   = true
+	hits    uint64
+	crashAt uint64
+	logPath string
+	loaded  bool
+)
+
+func loadEnv() {
+	if loaded {
+		return
+	}
+	loaded = true
+	logPath = os.Getenv("VERIF_CRASH_LOG")
+	if s := os.Getenv("VERIF_CRASH_AT"); s != "" {
+		if n, err := strconv.ParseUint(s, 10, 64); err == nil {
+			crashAt = n
+		}
+	}
+}
+
+// Arm makes Crash count (and log / exit) again.
+func Arm() {
+	mu.Lock()
+	armed = true
+	mu.Unlock()
+}
+
+// Disarm makes Crash a no-op until Arm is called.
+func Disarm() {
+	mu.Lock()
+	armed = false
+	mu.Unlock()
+}
+
+// Reset sets the hit counter back to zero.
+func Reset() {
+	mu.Lock()
+	hits = 0
+	mu.Unlock()
+}
+
+// Hits returns the number of hits counted so far.
+func Hits() uint64 {
+	mu.Lock()
+	defer mu.Unlock()
+	return hits
+}
+
+// Crash marks a crash point between two durable writes.
+func Crash(site string) {
+	mu.Lock()
+	defer mu.Unlock()
+	if !armed {
+		return
+	}
+	loadEnv()
+	hits++
+	if logPath != "" {
+		if f, err := os.OpenFile(logPath, os.O_CREATE|os.O_WRONLY|os.O_APPEND, 0o644); err == nil {
+			_, _ = fmt.Fprintf(f, "%d %s\n", hits, site)
+			_ = f.Close()
+		}
+	}
+	if crashAt != 0 && hits == crashAt {
+		os.Exit(ExitCode)
+	}
+}
